@@ -50,6 +50,30 @@ structure Fwd where
   args : List (List Alt)
 deriving Repr
 
+/-- where an argument of a call of a dispatched function inside a rule body comes from (read off the
+    AST): the operator parameter as a whole, a MEMBER of it (an element of `A.Ms`, or `A.A`),
+    `I_like(A)`, or an expression classified like the arguments of `Fwd` -/
+inductive ArgSrc where
+  | whole
+  | member
+  | ilike
+  | alts (as : List Alt)
+deriving Repr, DecidableEq
+
+/-- the full per-rule structure the translator extracts (round 2; compared FIELD BY FIELD with the
+    hand-written skeleton of Model/RuleSkeleton.lean by Lemmas/SkeletonTie.lean) -/
+structure RuleShape where
+  sig : Nat
+  /-- 0 structural | 1 forwarder | 2 generic -/
+  cls : Nat
+  /-- what the body touches of the operator beyond shape / dtype / xnp / device / annotations:
+      "Ms", "diag", "c", "multiplicities", "self" (returns the operator), "I_like", "scalarMul"
+      (`scalar * A`), "lazyPower" (`product([A] * k)`), sorted -/
+  touch : List String
+  /-- every call of a function of the family in the body, with the source of each bound argument -/
+  calls : List (String × List ArgSrc)
+deriving Repr
+
 structure Entry where
   name : String
   table : List Sig
